@@ -119,6 +119,12 @@ func (wt *websocketTransport) ConnectSend(ctx context.Context) error {
 		return err
 	}
 
+	// If this is a re-connect, the previous socket must not be left
+	// behind: nothing else would ever close it.
+	if wt.sendSocket != nil {
+		_ = wt.sendSocket.CloseNow()
+	}
+
 	wt.sendSocket = sendSocket
 	return nil
 }
@@ -132,6 +138,12 @@ func (wt *websocketTransport) ConnectReceive(ctx context.Context) error {
 	receiveSocket, _, err := websocket.Dial(ctx, receiveAddr, nil)
 	if err != nil {
 		return err
+	}
+
+	// If this is a re-connect, the previous socket must not be left
+	// behind: nothing else would ever close it.
+	if wt.receiveSocket != nil {
+		_ = wt.receiveSocket.CloseNow()
 	}
 
 	receiveSocket.SetReadLimit(webSocketRecvLimit)
